@@ -7,6 +7,7 @@ From Coq Require Import String.
 From Coq Require Import List Arith ZArith Bool.
 From BiomV Require Import Base.Tree Base.ListUtil Base.Matrix Model.Table Model.Json Model.Validator.
 From BiomV Require Import Proofs.JsonProofs Proofs.ValidatorProofs.
+From BiomV Require Import Gen.DynPrelude Gen.ValidatorGen Proofs.GenBridgeValidatorProofs.
 Import ListNotations.
 Open Scope Z_scope.
 
@@ -188,3 +189,65 @@ Print Assumptions run_hdf5_sound.
 
 Example valid_sound_hdf5_witness : validate_hdf5 witness_h5 = true.
 Proof. exact ValidatorProofs.witness_h5_valid. Qed.
+
+(* --- the tie to the source: the JSON half of the model is regenerated on every run --- *)
+
+(* Gen/ValidatorGen.v is produced by tools/py2v_dyn from biom/cli/table_validator.py at the start
+   of every check (every Python value a json, every dynamic operation one of the py_* primitives
+   of Gen/DynPrelude.v).  Each theorem says: the generated definition equals the hand-written one
+   the theorems above are proved over, for all inputs. *)
+Theorem validator_constants_is_source :
+  gen_FormatURL = FORMAT_URL /\ gen_TableTypes = TABLE_TYPES /\ gen_MatrixTypes = MATRIX_TYPES
+  /\ gen_ElementTypes = ELEMENT_TYPES.
+Proof. exact (conj FormatURL_bridge (conj TableTypes_bridge (conj MatrixTypes_bridge ElementTypes_bridge))). Qed.
+Print Assumptions validator_constants_is_source.
+
+(* _json_or_hdf5_get / _json_or_hdf5_key on a JSON document (no attrs), _is_int *)
+Theorem json_get_is_source : forall j k, gen_json_or_hdf5_get j k = py_get j k.
+Proof. exact json_or_hdf5_get_bridge. Qed.
+Print Assumptions json_get_is_source.
+Theorem json_key_is_source : forall j k, gen_json_or_hdf5_key j k = k.
+Proof. exact json_or_hdf5_key_bridge. Qed.
+Print Assumptions json_key_is_source.
+Theorem is_int_is_source : forall x, gen_is_int x = py_is_int x.
+Proof. exact is_int_bridge. Qed.
+Print Assumptions is_int_is_source.
+
+Theorem valid_format_is_source : forall j, gen_valid_format j = valid_format j.
+Proof. exact valid_format_bridge. Qed.
+Print Assumptions valid_format_is_source.
+Theorem valid_format_url_is_source : forall j, gen_valid_format_url j = valid_format_url j.
+Proof. exact valid_format_url_bridge. Qed.
+Print Assumptions valid_format_url_is_source.
+Theorem valid_type_is_source : forall j, gen_valid_type j = valid_type j.
+Proof. exact valid_type_bridge. Qed.
+Print Assumptions valid_type_is_source.
+Theorem valid_shape_is_source : forall j, gen_valid_shape j = valid_shape j.
+Proof. exact valid_shape_bridge. Qed.
+Print Assumptions valid_shape_is_source.
+Theorem valid_matrix_type_is_source : forall j, gen_valid_matrix_type j = valid_matrix_type j.
+Proof. exact valid_matrix_type_bridge. Qed.
+Print Assumptions valid_matrix_type_is_source.
+Theorem valid_matrix_element_type_is_source : forall j, gen_valid_matrix_element_type j = valid_matrix_element_type j.
+Proof. exact valid_matrix_element_type_bridge. Qed.
+Print Assumptions valid_matrix_element_type_is_source.
+Theorem valid_generated_by_is_source : forall j, gen_valid_generated_by j = valid_generated_by j.
+Proof. exact valid_generated_by_bridge. Qed.
+Print Assumptions valid_generated_by_is_source.
+Theorem valid_nullable_id_is_source : forall j, ROk (gen_valid_nullable_id j) = valid_nullable_id j.
+Proof. exact valid_nullable_id_bridge. Qed.
+Print Assumptions valid_nullable_id_is_source.
+(* _valid_date itself is pinned by AST hash and stands for date_ok (py_valid_date) *)
+Theorem valid_datetime_is_source : forall j, gen_valid_datetime j = valid_datetime j.
+Proof. exact valid_datetime_bridge. Qed.
+Print Assumptions valid_datetime_is_source.
+(* the loop over the entries is a Fixpoint in both; induction over the list *)
+Theorem valid_sparse_data_is_source : forall j, gen_valid_sparse_data j = valid_sparse_data j.
+Proof. exact valid_sparse_data_bridge. Qed.
+Print Assumptions valid_sparse_data_is_source.
+Theorem valid_dense_data_is_source : forall j, gen_valid_dense_data j = valid_dense_data j.
+Proof. exact valid_dense_data_bridge. Qed.
+Print Assumptions valid_dense_data_is_source.
+Theorem valid_data_is_source : forall j, gen_valid_data j = valid_data j.
+Proof. exact valid_data_bridge. Qed.
+Print Assumptions valid_data_is_source.
